@@ -302,7 +302,22 @@ def run(repo, rep):
     for c_ in near:
         rep.check(len(c_.args) == 1 and str(norm(c_.args[0])) == f"{tgt}.resampling_mode", "C10-e", SITE_M, f"even stripe heights are forced by `{tgt}`'s own nearest-neighbour resampling",
                   f"tests `{str(norm(c_))}`: the op whose IFM is upscaled 2x nearest-neighbour produces OFM rows in pairs; an odd stripe height on it splits a pair across two stripes")
-    rep.floor("C10-e", 5)
+    # optimised schedules: the stripe heights proposed for the last operator of a sub-schedule enter propose_schedule_striping as they are
+    # (only the producers' heights are adjusted there), so they must already respect that operator's own upscaling factor
+    osub = sch.func("Scheduler.optimize_sub_schedule")
+    SITE_O = "ethosu/vela/scheduler.py:Scheduler.optimize_sub_schedule"
+    pst = [st for st in ast.walk(osub) if isinstance(st, ast.Assign) and str(norm(st.targets[0])) == "possible_stripes"]
+    if len(pst) != 1:
+        raise AnalysisError("optimize_sub_schedule: the list of proposed stripes was not found")
+    last_alias = {str(norm(st.targets[0])) for st in ast.walk(osub) if isinstance(st, ast.Assign) and str(norm(st.value)) == "sub_schedule_ops[-1]"} | {"sub_schedule_ops[-1]"}
+    # the comprehension may use locals computed just before it (e.g. a step): inline single-assignment names
+    local = {str(norm(st.targets[0])): st.value for st in ast.walk(osub) if isinstance(st, ast.Assign) and len(st.targets) == 1 and isinstance(st.targets[0], ast.Name) and st.lineno < pst[0].lineno}
+    texts = [str(norm(pst[0].value))] + [str(norm(local[n_.id])) for n_ in ast.walk(pst[0].value) if isinstance(n_, ast.Name) and n_.id in local]
+    ok = any(any(f"{fn_}({a}.resampling_mode)" in t for t in texts) for a in last_alias for fn_ in ("to_upscale", "is_nearest"))
+    rep.check(ok, "C10-e", SITE_O, "the stripe heights proposed for the last operator of a sub-schedule are restricted by that operator's own upscaling factor",
+              f"`{texts[0][:110]}` proposes every height: an operator that reads its IFM 2x nearest-neighbour upscaled and is last in its cascade gets an odd stripe (demonstrated: RESIZE_NEAREST_NEIGHBOR "
+              "11x15 -> 22x30 last in a cascade, ethos-u65-512, --arena-cache-size 4000: stripe height 9, OFM rows 0..9 are given IFM rows 0..4 and need 0..5; the next stripe starts at the odd row 9)")
+    rep.floor("C10-e", 6)
 
     # producer / consumer roles at call sites of the cascade / scheduler code (rolling buffer between two cascaded ops:
     # producer's OFM stripe + consumer's IFM stripe)
